@@ -230,6 +230,66 @@ func arrayBitmap(n int) []byte {
 	return b
 }
 
+// sparseBitmap: n values spread over array containers of at most 4000 values each (about 2n bytes)
+func sparseBitmap(n int) []byte {
+	bm := roaring.NewBitmap()
+	for i := 0; i < n; i++ {
+		bm.Add(uint32(i/4000)<<16 | uint32(2*(i%4000)))
+	}
+	b, _ := bm.ToBytes()
+	return b
+}
+
+// uvLong encodes v as a uvarint that is `extra` bytes longer than necessary (still terminated within 10 bytes).
+func uvLong(v uint64, extra int) []byte {
+	b := make([]byte, 10)
+	n := binary.PutUvarint(b, v)
+	b = b[:n]
+	if extra <= 0 || n+extra > 10 {
+		return b
+	}
+	b[n-1] |= 0x80
+	for i := 0; i < extra-1; i++ {
+		b = append(b, 0x80)
+	}
+	return append(b, 0x00)
+}
+
+// looseBody writes the body of a snapshot file by hand, like WriteTo, except that uvarint field number `field`
+// (0 = format version, 1 = segment count, then per segment: type length, id, deleted length) is `extra`
+// bytes longer than necessary, and the deleted payload of a segment is followed by `payloadTail` junk bytes
+// (counted in its length).
+func looseBody(segs []index.VerifSeg, field, extra int, payloadTail int) []byte {
+	k := 0
+	uv := func(v uint64) []byte {
+		e := 0
+		if k == field {
+			e = extra
+		}
+		k++
+		return uvLong(v, e)
+	}
+	var b []byte
+	b = append(b, uv(1)...)
+	b = append(b, uv(uint64(len(segs)))...)
+	for _, sg := range segs {
+		b = append(b, uv(uint64(len(sg.Type)))...)
+		b = append(b, sg.Type...)
+		var v [4]byte
+		binary.BigEndian.PutUint32(v[:], sg.Version)
+		b = append(b, v[:]...)
+		b = append(b, uv(sg.ID)...)
+		if sg.Deleted != nil {
+			p := append(append([]byte{}, sg.Deleted...), bytes.Repeat([]byte{0}, payloadTail)...)
+			b = append(b, uv(uint64(len(p)))...)
+			b = append(b, p...)
+		} else {
+			b = append(b, uv(0)...)
+		}
+	}
+	return b
+}
+
 func withCRC(body []byte) []byte {
 	out := append([]byte{}, body...)
 	var c [4]byte
@@ -459,6 +519,29 @@ func (h) Gen(r *hlib.Rand, tier string, scale int, emit func(string)) {
 			}
 		}
 		body := f[:len(f)-4]
+		// CRC-consistent files that are not encodings (the checksum is repaired, so only the decoder can refuse them):
+		// (A) every truncation of the body — a field missing at the end reads as 0 unless Uvarint's n is checked;
+		// (B) bytes behind the last segment; (C) every uvarint field spelled longer than necessary;
+		// (D) a deleted payload followed by bytes roaring does not read
+		oneMode = !thorough
+		for n := 0; n < len(body); n++ {
+			both(withCRC(body[:n]), olderFile, ctx)
+		}
+		for _, t := range [][]byte{{0}, {0x80}, {1, 2, 3}, bytes.Repeat([]byte{0xff}, 11)} {
+			both(withCRC(append(append([]byte{}, body...), t...)), olderFile, ctx)
+		}
+		for field := 0; field < 2+3*len(base); field++ {
+			for _, extra := range []int{1, 2, 9} {
+				lb := looseBody(base, field, extra, 0)
+				if !bytes.Equal(lb, body) {
+					both(withCRC(lb), olderFile, ctx)
+				}
+			}
+		}
+		if len(base) > 0 {
+			both(withCRC(looseBody(base, -1, 0, 1)), olderFile, ctx)
+			both(withCRC(looseBody(base, -1, 0, 7)), olderFile, ctx)
+		}
 		oneMode = !thorough
 		for i := 0; i < 30*k; i++ { // appended tails
 			n := 1 + r.Intn(12)
@@ -551,6 +634,45 @@ func (h) Gen(r *hlib.Rand, tier string, scale int, emit func(string)) {
 			if i%2 == 0 {
 				g = withCRC(g)
 			}
+			both(g, olderFile, ctx)
+		}
+	}
+	// more intact files beyond one read buffer: the CRC of such a file is accumulated over several reads of
+	// the hash reader (4096-byte fills, then one large direct read when a long bitmap is fetched), and the
+	// bytes behind the first fill are covered only if every one of those reads is hashed. Each file is
+	// loaded intact by both loaders, then with one bit flipped in every 4096-byte stretch of it and in the
+	// last byte of the body (all must be passed over for the older snapshot).
+	{
+		lens := []int{4097, 4100, 5000, 8191, 8193, 12289, 20000}
+		if thorough {
+			lens = append(lens, 4099, 6000, 8192, 8200, 16385, 40000, 70000)
+		}
+		for li, L := range lens {
+			s1, ok := firstSegWithBodyLen("ice", L)
+			if !ok { // beyond one array container: a first segment of about that size
+				s1 = index.VerifSeg{ID: 1, Type: "ice", Version: 1, Deleted: sparseBitmap((L - 40) / 2)}
+			}
+			segs := []index.VerifSeg{s1, {ID: uint64(1000 + li), Type: "ice", Version: 2, Deleted: bitmapBytes(uint32(li), 77)}, {ID: 1<<63 + uint64(li), Type: "ice", Version: 1}}
+			if li%2 == 1 { // a second long bitmap: the large read happens with a partly consumed buffer
+				segs = append(segs, index.VerifSeg{ID: 31, Type: "ice", Version: 1, Deleted: arrayBitmap(1500 + 300*li)})
+			}
+			f := encodeFile(segs)
+			ctx := ctxAll(segs, older)
+			oneMode = false
+			both(f, olderFile, ctx)
+			ld(f, nil, ctx)
+			oneMode = !thorough
+			for off := 0; off < len(f)-4; off += 4096 {
+				p := off + r.Intn(4096)
+				if p >= len(f)-4 {
+					p = len(f) - 5
+				}
+				g := append([]byte{}, f...)
+				g[p] ^= 1 << uint(r.Intn(8))
+				both(g, olderFile, ctx)
+			}
+			g := append([]byte{}, f...)
+			g[len(f)-5] ^= 0x10
 			both(g, olderFile, ctx)
 		}
 	}
